@@ -261,7 +261,7 @@ CHECKS = {
                 "ticks the interrupted call completes, the API is available again, and (5) from H's next poll on the database equals the uninterrupted run's "
                 "(every breach answered, nothing dropped). non-trivial = fault reached; distinct = distinct (history, fault). Second engine (e3o), same oracle in real "
                 "time against the real teosd binary: from teosd's k-th node RPC on the fake bitcoind drops every TCP connection without an answer (RPC and block "
-                "source); the operation in flight runs on a worker thread; while it waits the four public endpoints are probed over HTTP / gRPC (no answer within 20 s = "
+                "source) - or, every second k, answers that RPC with headers and half of the body before dying (the node killed while answering); the operation in flight runs on a worker thread; while it waits the four public endpoints are probed over HTTP / gRPC (no answer within 20 s = "
                 "the API hangs: violation); polls granted during the outage must return; after the node is back the operation must complete within 30 s (the Carrier's "
                 "retry period is 10 s), the API must take work again and the database must equal the uninterrupted run's after every later operation.",
         "assumptions": E1_ASSUME[:2] + [
